@@ -2,7 +2,7 @@
    client against the reference executor with RAM budget = snapshots_in_ram and DISK budget 0. *)
 From Coq Require Import ZArith List Lia Bool.
 Require Import Actions Ops RevSeq RevConv Exec Sched ExecFacts RunFacts MSBridge RevBridge1 RevBridge2 RevBridge3.
-Require RevBlk RevGen MSPot.
+Require RevBlk RevGen RevCost MSPot MSTerm.
 Import ListNotations.
 Open Scope Z_scope.
 
@@ -46,7 +46,53 @@ Proof.
     unfold RevBlk.keys in Hin. rewrite Hst in Hin. exact Hin.
 Qed.
 
+Lemma conv_work N : forall ops i prev c acts r, RevBlk.conv N i prev c ops = (acts, inl r) -> sumflen acts = RevCost.work ops.
+Proof.
+  induction ops as [|o ops IH]; intros i prev c acts r H; cbn [RevBlk.conv] in H; [injection H as <- _; reflexivity|].
+  destruct (RevBlk.conv1 N i prev o ops c) as [[c1 a1]|e] eqn:E1; [|discriminate].
+  destruct (RevBlk.conv N (S i) (Some o) c1 ops) as [a2 r2] eqn:E2. injection H as <- ->.
+  assert (Happ : forall l1 l2, sumflen (l1 ++ l2) = sumflen l1 + sumflen l2) by (unfold sumflen; induction l1; intros; cbn [app fold_right]; [lia|rewrite IHl1; lia]).
+  rewrite Happ, (IH _ _ _ _ _ E2). cbn [RevCost.work].
+  assert (H1 : sumflen a1 = match o with RevBlk.OF a b => b - a | _ => 0 end).
+  { destruct o; cbn [RevBlk.conv1] in E1;
+      repeat match type of E1 with context [match ?x with _ => _ end] => destruct x eqn:? | context [if ?x then _ else _] => destruct x eqn:? end;
+      try discriminate; injection E1 as <- <-; cbn; lia. }
+  rewrite H1. destruct o; lia.
+Qed.
+
 Definition rev_xparams (N ram : Z) : xparams := {| xN := N; keep_all_deps := false; budget_ram := Some ram; budget_disk := Some 0 |}.
+
+Theorem revolve_cfg_run N ram disk L0 k : 1 <= N -> 0 <= ram -> (2 <= N -> 1 <= ram) -> RevBlk.Blk true 0 (N - 1) ram L0 ->
+  let '(s', m, ls) := run_ops (rev_xparams N ram) {| ob := ORevF KRevolve N ram disk (init_r (map inj L0)); started := false |} mon0 (repeat Next k) in
+  mon_ok m /\ no_raise ls /\ (is_exhausted s' = true -> fwd_total (cnt (mx m)) = RevCost.work L0).
+Proof.
+  intros HN Hram Hram1 HB.
+  set (L := map inj L0).
+  assert (HJ0 : J N ram L KRevolve ram disk (RevCost.work L0) {| ob := ORevF KRevolve N ram disk (init_r L); started := false |} mon0).
+  { pose proof (Blk_nonempty _ _ _ _ _ HB) as Hne.
+    assert (Hprev : exists prev, prevop L0 0 = Some prev).
+    { unfold prevop. destruct (rev L0) as [|z r] eqn:E; [|eauto]. apply (f_equal (@rev _)) in E. rewrite rev_involutive in E. contradiction. }
+    destruct Hprev as [prev Hprev].
+    destruct (blk_stream_ok N ram L0 (Some prev) HN Hram Hram1 HB) as (acts & c' & x' & lastop & Hconv & Hexs & Hsn & Hst & Hrr & Hef).
+    pose proof (conv_link N L0 [] prev RevGen.init_c acts c' (Some lastop) (length L0) (Blk_wf _ _ _ _ _ HB) (fun _ => Hprev) Hconv) as Hlink.
+    cbn [app length] in Hlink.
+    apply (Jrun N ram L KRevolve ram disk (RevCost.work L0) 0%nat init_c [] RevGen.init_x 0 false mon0).
+    - lia.
+    - reflexivity.
+    - unfold Rx, toMS, RevGen.init_x, mon0, x0. cbn. repeat split; reflexivity.
+    - unfold NN, RevGen.init_x. cbn. repeat split; try lia; try discriminate. intros f Hf; injection Hf as <-; lia.
+    - intros a b Hd; discriminate.
+    - cbn [AgP]. split; reflexivity.
+    - constructor.
+    - exists acts, (cmap c'), x'. unfold L. rewrite map_length, Nat.sub_0_r. cbn [app]. rewrite (conv_work N _ _ _ _ _ _ Hconv). repeat split; auto. }
+  pose proof (run_nexts (RevBridge2.pR N ram) (J N ram L KRevolve ram disk (RevCost.work L0)) (J_step N ram Hram L KRevolve ram disk (RevCost.work L0)) k _ _ HJ0 eq_refl) as Hrun.
+  change (RevBridge2.pR N ram) with (rev_xparams N ram) in Hrun.
+  destruct (run_ops (rev_xparams N ram) _ mon0 (repeat Next k)) as [[s' m'] ls]. destruct Hrun as (HJ & H1 & H2).
+  split; [assumption|]. split; [assumption|].
+  intros He. inversion HJ as [i c p x d stt m0 Hi Hm HRx HNN HWD HAg Hcl HFut|i c stt m0 Hm Htot]; subst.
+  - cbn in He. discriminate.
+  - exact Htot.
+Qed.
 
 Theorem revolve_run_of_grammar N ram disk uf ub wd rd L0 k : 1 <= N -> 0 <= ram -> (2 <= N -> 1 <= ram) ->
   RevBlk.Blk true 0 (N - 1) ram L0 -> sequence KRevolve N ram disk uf ub wd rd = Ok (map inj L0) ->
@@ -55,26 +101,7 @@ Proof.
   intros HN Hram Hram1 HB Hseq.
   unfold run_case, Sched.construct, RevConv.construct. rewrite Hseq. cbn [bind].
   destruct (Z.ltb_spec N 1); [lia|]. destruct (Z.ltb_spec ram (Z.min 1 (N - 1))); [lia|]. cbn [bind].
-  set (L := map inj L0).
-  assert (HJ0 : J N ram L KRevolve ram disk {| ob := ORevF KRevolve N ram disk (init_r L); started := false |} mon0).
-  { pose proof (Blk_nonempty _ _ _ _ _ HB) as Hne.
-    assert (Hprev : exists prev, prevop L0 0 = Some prev).
-    { unfold prevop. destruct (rev L0) as [|z r] eqn:E; [|eauto]. apply (f_equal (@rev _)) in E. rewrite rev_involutive in E. contradiction. }
-    destruct Hprev as [prev Hprev].
-    destruct (blk_stream_ok N ram L0 (Some prev) HN Hram Hram1 HB) as (acts & c' & x' & lastop & Hconv & Hexs & Hsn & Hst & Hrr & Hef).
-    pose proof (conv_link N L0 [] prev RevGen.init_c acts c' (Some lastop) (length L0) (Blk_wf _ _ _ _ _ HB) (fun _ => Hprev) Hconv) as Hlink.
-    cbn [app length] in Hlink.
-    apply (Jrun N ram L KRevolve ram disk 0%nat init_c [] RevGen.init_x 0 false mon0).
-    - lia.
-    - reflexivity.
-    - unfold Rx, toMS, RevGen.init_x, mon0, x0. cbn. repeat split; reflexivity.
-    - unfold NN, RevGen.init_x. cbn. repeat split; try lia; try discriminate. intros f Hf; injection Hf as <-; lia.
-    - intros a b Hd; discriminate.
-    - cbn [AgP]. split; reflexivity.
-    - constructor.
-    - exists acts, (cmap c'), x'. unfold L. rewrite map_length, Nat.sub_0_r. cbn [app]. repeat split; auto. }
-  pose proof (run_nexts (RevBridge2.pR N ram) (J N ram L KRevolve ram disk) (J_step N ram Hram L KRevolve ram disk) k _ _ HJ0 eq_refl) as Hrun.
-  change (RevBridge2.pR N ram) with (rev_xparams N ram) in Hrun.
-  destruct (run_ops (rev_xparams N ram) _ mon0 (repeat Next k)) as [[s' m'] ls]. destruct Hrun as (_ & H1 & H2).
+  pose proof (revolve_cfg_run N ram disk L0 k HN Hram Hram1 HB) as Hrun.
+  destruct (run_ops (rev_xparams N ram) _ mon0 (repeat Next k)) as [[s' m'] ls]. destruct Hrun as (H1 & H2 & _).
   eexists _, _, _. split; [reflexivity|]. split; assumption.
 Qed.
